@@ -119,3 +119,6 @@ func StressSources(rng interface{ Intn(int) int }, n, minSize, maxSize int) []So
 	}
 	return out
 }
+
+// ClangSources returns the clang corpus (W4); filled in by clang.go.
+var ClangSources = func(thorough bool) []Source { return nil }
